@@ -144,8 +144,15 @@ def build(case):
         kw["target_idx"] = list(targets)
     total = S.Zero
     group_sums = []
+    tsorted = tuple(sorted(targets, key=idx_key))
     for g in case["groups"]:
         s = build_term(g["base"])
+        if g.get("rewired"):
+            # a re-wiring may degenerate (delta_xx = 1 leaves x dangling):
+            # keep it only if its free indices are still the targets
+            if s == 0 or (not case.get("explicit") and
+                          einstein_target(s) != tsorted):
+                s = S.Zero
         for v in g["variants"]:
             s += build_term(v)
         group_sums.append(s)
